@@ -11,6 +11,7 @@ from typing import Union
 from liquid.filter import array_filter
 from liquid.filter import sequence_filter
 from liquid.limits import to_int
+from liquid.undefined import is_undefined
 
 
 @array_filter
@@ -19,6 +20,11 @@ def index(left: Sequence[object], obj: object) -> object:
 
     `None` is returned if `obj` is not in `left`.
     """
+    if is_undefined(left):
+        # Iterating the default undefined type gives an empty array. Strict
+        # undefined types raise an `UndefinedError` here.
+        left = list(left)
+
     try:
         return left.index(obj)
     except ValueError:
